@@ -5,6 +5,8 @@
 (*   fire  {a}             the harness performed external action a (an API  *)
 (*                         call, a command to the scripted connection /     *)
 (*                         handler, a client-side action)                   *)
+(*   race                  compact per-session and per-batch observations   *)
+(*                         of one race round (see RaceOK below)             *)
 (*   sync  {obs}           the harness waited for global quiescence and     *)
 (*                         observed: ConnCount, and per session OnExit      *)
 (*                         calls, conn closed, the Write / Read in flight,  *)
@@ -68,12 +70,27 @@ FreeObsOK(o) ==
           ELSE IsPrefix(x.got, c.peer)
        /\ x.gone => ~c.copen                            \* the client saw the connection end
 
+(* Race rounds: thousands of sessions whose two loops were released by ONE    *)
+(* event (a pending Read and a pending Write fail together), no driver step   *)
+(* in between, observed after quiescence.  Only the projection of the ended   *)
+(* state is recorded (per session, in one event per batch); what Session.tla  *)
+(* says about an ended session (invariants SingleExit, EndedExited) and about the  *)
+(* count in a quiescent state (QuietCount, CountBalanced) is required of it:  *)
+(* the exit callback ran exactly once and the connection is closed; after a   *)
+(* batch the count is back at its previous value (and was previous + n while  *)
+(* all n sessions were alive), no session goroutine is left.                  *)
+RaceOK(e) ==
+  /\ Len(e.exits) = e.n /\ Len(e.closed) = e.n
+  /\ \A i \in 1..e.n : e.exits[i] = 1 /\ e.closed[i]
+  /\ e.started = e.before + e.n /\ e.after = e.before /\ e.g = 0
+
 TraceNext ==
   \/ /\ pend = 0 /\ l <= Len(TraceLog)
      /\ LET e == TraceLog[l] IN
           CASE e.ev = "reset" -> TReset(e) /\ l' = l + 1 /\ UNCHANGED pend
             [] e.ev = "fire"  -> Step(e.a) /\ l' = l + 1 /\ UNCHANGED <<pend, free>>
             [] e.ev = "sync"  -> pend' = 1 /\ UNCHANGED <<allvars, l, free>>
+            [] e.ev = "race"  -> RaceOK(e) /\ l' = l + 1 /\ UNCHANGED <<allvars, pend, free>>
             [] OTHER -> FALSE
   \/ /\ pend = 1 /\ Quiescent
      /\ IF free THEN (\A s \in Sess : ss[s].sp # "write") /\ FreeObsOK(TraceLog[l].obs)
